@@ -11,19 +11,19 @@ import re
 import vf
 
 META = {
-    "text": "34 theorems (Coq, no axioms), all FULL under stated hypotheses, none refuted.  WAL (chaindbForRaft.go, waldb.go): after any "
+    "text": "36 theorems (Coq, no axioms), all FULL under stated hypotheses, none refuted.  WAL (chaindbForRaft.go, waldb.go): after any "
             "history of well-formed batches (raft's) the entry at every index up to the last is the reference log "
             "firstn(i0-1)++batch, absent beyond (any overwrite, ClearWAL, ResetWAL); ReadAll returns it with "
             "its blocks; replayWAL hands it and the hard state to the library's storage; hard state "
             "/ snapshot / identity round trips; HasWal; inverse map = latest write; every prefix of SaveEntry's write units leaves a "
             "consistent store (the opposite order is shown unsafe); ClearWAL/ResetWAL intermediates have no identity.  "
             "raftserver.go: entriesToApply, triggerSnapshot index arithmetic.  Membership (cluster.go): duplicate name/id/address/peer id "
-            "refused, removed id never re-added, also through any snapshot round trips (the snapshot lists the whole id-indexed maps), unknown id not removed, removal of a healthy node keeps quorum, one proposal in flight.  Tie: in-package engine of raftv2 (overlay) runs the real functions on a journaling in-memory "
+            "refused, removed id never re-added, also through any snapshot round trips (the snapshot lists the whole id-indexed maps), unknown id not removed, removal of a healthy node keeps quorum, one change in flight (a requester's time-out does not free the slot).  Tie: in-package engine of raftv2 (overlay) runs the real functions on a journaling in-memory "
             "store: all read back before/after restart and after every proper prefix of each operation's write units; complete "
             "isEnable / entriesToApply families, validate cases, request sequences with attribute re-use after removal and createSnapshotData->"
-            "Recover into initial/empty/lagging clusters; model evaluated by vm_compute on the same "
+            "Recover into initial/empty/lagging clusters, the real ChangeMembership path with time-outs and late applies; model evaluated by vm_compute on the same "
             "inputs; direct predicates: restart-same, reference log, ReadAll, replay, crash-consistent, HasWal, quorum, "
-            "add/remove accepted, removed-forgotten, snapshot-members, removed-readded, two-proposals, snapshot-index.",
+            "add/remove accepted, removed-forgotten, snapshot-members, removed-readded, two-proposals (in flight tracked by the check), timeout-frees-slot, snapshot-index.",
     "note": "Trusted: Coq kernel + vm_compute; no axioms, no translator; engine harness/engines/raftwal (+ constructor shim in chain), "
             "generators in this script.  Modelled, not verified: gob/protobuf/JSON encodings opaque; dbkey families disjoint; a DB "
             "transaction / bulk is atomic (C06); raft Status faked; MemoryStorage is the library's.  Hypotheses: batches consecutive, above "
@@ -433,10 +433,28 @@ def gen_srv_cases(rng, quick):
     for _ in range(120 if quick else 2000):
         pops = []
         for _ in range(rng.randrange(3, 12)):
-            k = rng.choice(["submit", "submit", "make", "after", "after", "take"])
-            pops.append([k] if k == "take" else [k, rng.randrange(1, 4)])
+            k = rng.choice(["submit", "submit", "make", "after", "after", "take", "timeout"])
+            pops.append([k] if k in ("take", "timeout") else [k, rng.randrange(1, 4)])
         prop.append({"kind": "prop", "cap": rng.choice([0, 1, 1, 2]), "pops": pops})
-    return eta, ts, prop
+    # the real ChangeMembership path: n members (1 = this node, the leader), health flags, remove requests (waiting ->
+    # the requester times out, or not waiting) interleaved with applies of what was handed to raft
+    cm = []
+    for ci in range(60 if quick else 1500):
+        n = rng.randrange(3, 7)
+        health = [1] + [rng.choice([1, 1, 1, 0]) for _ in range(n - 1)]
+        if ci % 3 == 0:
+            n = rng.choice([4, 5])
+            health = [1, 1, 1] + [0] * (n - 3)         # removing two healthy members one after the other loses the quorum
+        cops = []
+        for _ in range(rng.randrange(3, 9)):
+            r = rng.random()
+            if r < 0.6:
+                cops.append(["remove", rng.randrange(2, n + 1), rng.choice([0, 1, 1])])
+            else:
+                cops.append(["apply"])
+        cops += [["apply"], ["apply"], ["apply"]]
+        cm.append({"kind": "cm", "health": health, "cops": cops})
+    return eta, ts, prop, cm
 
 
 def coq_member(m):
@@ -482,6 +500,8 @@ def run(ctx):
             if c.get("kind") == "seq":
                 seq_corpus += [{"kind": "seq", "applied": x["applied"], "reqs": x["reqs"]} for x in c["cases"]]
                 continue
+            if c.get("kind") == "cm":
+                continue
             g = WalGen(rng, True)
             for op in c["ops"]:
                 g.ops.append(op)
@@ -521,8 +541,14 @@ def run(ctx):
     val_cases = gen_val_cases(rng, quick)
     en_cases = gen_en_cases(rng, quick)
     seq_cases = seq_corpus + gen_seq_cases(rng, quick)
-    eta_cases, ts_cases, prop_cases = gen_srv_cases(rng, quick)
-    srv_cases = eta_cases + ts_cases + prop_cases
+    eta_cases, ts_cases, prop_cases, cm_cases = gen_srv_cases(rng, quick)
+    cmdir = os.path.join(ctx.verif, "corpus", "C16")
+    for f in sorted(os.listdir(cmdir)):
+        if f.endswith(".json"):
+            cj = json.load(open(os.path.join(cmdir, f)))
+            if cj.get("kind") == "cm":
+                cm_cases = [{"kind": "cm", "health": x["health"], "cops": x["cops"]} for x in cj["cases"]] + cm_cases
+    srv_cases = eta_cases + ts_cases + prop_cases + cm_cases
     allc = wal_cases + val_cases + en_cases + seq_cases + srv_cases
     fin = os.path.join(ctx.workdir, "c16.in")
     fout = os.path.join(ctx.workdir, "c16.out")
@@ -541,7 +567,9 @@ def run(ctx):
     o1 = len(wal_cases) + len(val_cases) + len(en_cases)
     sres = res[o1: o1 + len(seq_cases)]
     xres = res[o1 + len(seq_cases):]
-    etares, tsres, propres = xres[: len(eta_cases)], xres[len(eta_cases): len(eta_cases) + len(ts_cases)], xres[len(eta_cases) + len(ts_cases):]
+    etares, tsres = xres[: len(eta_cases)], xres[len(eta_cases): len(eta_cases) + len(ts_cases)]
+    propres = xres[len(eta_cases) + len(ts_cases): len(eta_cases) + len(ts_cases) + len(prop_cases)]
+    cmres = xres[len(eta_cases) + len(ts_cases) + len(prop_cases):]
 
     pred_fail = []
     stale_inv = 0
@@ -742,6 +770,50 @@ def run(ctx):
                 pred_fail.append(("C16:snapshot-index", "triggerSnapshot stores a snapshot / compacts at a wrong index", {"case": c, "obs": r}))
         elif idx != 0 and idx - snap > freq:
             pred_fail.append(("C16:snapshot-index", "triggerSnapshot takes no snapshot although more than snapFrequency entries were connected", {"case": c, "obs": r}))
+    # in flight = accepted by submitProposal and not yet applied (tracked here, not read from the implementation's slot)
+    for c, r in zip(prop_cases, propres):
+        flight = set()
+        prev_saved = 0
+        for op, st in zip(c["pops"], r["steps"]):
+            if op[0] == "submit" and st["code"] == 0:
+                if flight:
+                    pred_fail.append(("C16:two-proposals", "a membership change was accepted while another one is in flight (accepted, "
+                                      "not yet applied)", {"case": c, "steps": r["steps"], "in_flight": sorted(flight)}))
+                    break
+                flight.add(op[1])
+            if op[0] == "after":
+                flight.discard(op[1])
+            if op[0] == "timeout" and (st["code"] != 4 or st["saved"] != prev_saved):
+                pred_fail.append(("C16:timeout-frees-slot", "a requester's time-out changed the proposal slot (the change is still in the raft "
+                                  "log and will be applied)", {"case": c, "steps": r["steps"]}))
+                break
+            prev_saved = st["saved"]
+    for c, r in zip(cm_cases, cmres):
+        health = c["health"]
+        flight = []
+        members = set(range(1, len(health) + 1))
+
+        def quorum_ok(ms):
+            return sum(1 for i in ms if health[i - 1]) >= len(ms) // 2 + 1
+        start_ok = quorum_ok(members)
+        reported = False
+        for si, (op, st) in enumerate(zip(c["cops"], r["steps"])):
+            if op[0] == "remove" and st["code"] in (0, 4):
+                if flight and not reported:
+                    reported = True
+                    pred_fail.append(("C16:two-proposals", "ChangeMembership accepted a request while an earlier accepted change is still in "
+                                      "flight (handed to raft, not yet applied; its requester had timed out)",
+                                      {"case": c, "step": si, "steps": r["steps"], "in_flight": list(flight)}))
+                flight.append(op[1])
+            if op[0] == "apply" and st["code"] != 3 and flight:
+                flight.pop(0)
+            if st["code"] in (98, 99):
+                pred_fail.append(("C16:two-proposals", "unexpected error in the ChangeMembership path", {"case": c, "step": si, "steps": r["steps"]}))
+                break
+            if start_ok and not quorum_ok(set(st["applied"])):
+                pred_fail.append(("C16:quorum", "after the accepted removals were applied the healthy members are no longer a quorum of the "
+                                  "configuration", {"case": c, "step": si, "steps": r["steps"]}))
+                break
     for c, r in zip(prop_cases, propres):
         saved = 0
         for op, st in zip(c["pops"], r["steps"]):
@@ -860,8 +932,8 @@ def run(ctx):
         sitems.append("([%s], [%s])" % (";".join(coq_member(a) for a in c["applied"]), ";\n ".join(steps)))
     xitems_eta = ["(%d, [%s], [%s])" % (c["appliedidx"], ";".join(map(str, c["idxs"])), ";".join(map(str, r["obs"]))) for c, r in zip(eta_cases, etares)]
     xitems_ts = ["(%d, %d, %d, %d, %d, [%s])" % (c["idx"], c["snap"], c["freq"], c["catchup"], c["snap"], ";".join(map(str, r["obs"]))) for c, r in zip(ts_cases, tsres)]
-    POP = {"submit": "PSubmit %d", "make": "PMake %d", "after": "PAfter %d"}
-    xitems_prop = ["(%d%%nat, [%s])" % (c["cap"], ";".join("(%s, %d, %d, %d)" % (("PTake" if op[0] == "take" else POP[op[0]] % op[1]), st["code"], st["saved"], st["chan"])
+    POP = {"submit": "PSubmit %d", "make": "PMake %d", "after": "PAfter %d", "take": "PTake", "timeout": "PTimeout"}
+    xitems_prop = ["(%d%%nat, [%s])" % (c["cap"], ";".join("(%s, %d, %d, %d)" % ((POP[op[0]] if len(op) == 1 else POP[op[0]] % op[1]), st["code"], st["saved"], st["chan"])
                                                           for op, st in zip(c["pops"], r["steps"]))) for c, r in zip(prop_cases, propres)]
     bad_s = []
 
@@ -978,6 +1050,10 @@ def run(ctx):
                                                         "{add, remove, other}" + (" (1500 sampled)" if quick else " (complete)"),
                                      "crash_states_observed": sum(len(st.get("crash") or []) for r in wres for st in r["steps"]),
                                      "entries_to_apply_cases": len(eta_cases), "trigger_snapshot_cases": len(ts_cases), "proposal_slot_sequences": len(prop_cases),
+                                     "change_membership_sequences": len(cm_cases),
+                                     "change_membership_accepted": sum(1 for r in cmres for st2 in r["steps"] if st2["code"] in (0, 4)),
+                                     "change_membership_timeouts": sum(1 for r in cmres for st2 in r["steps"] if st2["code"] == 4),
+                                     "change_membership_refused_pending": sum(1 for r in cmres for st2 in r["steps"] if st2["code"] == 1),
                                      "replay_runs": sum(1 for g, r in zip(corpus + gens, wres) for st in r["steps"] if not st.get("p") and isinstance(decode_obs(st["post"])["replay"], dict)),
                                      "request_sequences": len(seq_cases), "request_sequence_steps": seq_steps,
                                      "snapshot_round_trips": sum(1 for c in seq_cases for rq in c["reqs"] if rq[0] == 9),
